@@ -55,3 +55,44 @@ Proof. vm_compute. reflexivity. Qed.
 Print Assumptions C01_monitor_sound.
 Print Assumptions C01_discipline_prefix_closed.
 Print Assumptions C01_crash_outcomes_exist.
+
+(* ===================== theorems added after the first build (deeper proofs) ===================== *)
+From TV Require Import Storage.Proto Storage.ProtoProofs.
+
+(* EVERY history: the protocol model of the writer (segment finalisation by workers, advance_deletes, save_metas =
+   sync; atomic write; sync, schedule_commit = purge deletes; publish; GC; return, merges with their files written
+   concurrently and end_merge on the updater thread, garbage collection against the living set, rollback, reopen),
+   for every operation list and every scheduler oracle interleaving background jobs anywhere (inside save_metas,
+   between GC deletions), emits only traces the commit discipline accepts ... *)
+Theorem C01_all_histories : forall ops sched, monitor (proto_trace ops sched) = true.
+Proof. exact proto_all_histories. Qed.
+
+(* ... hence every history of the protocol is crash safe at every point and for every crash outcome *)
+Theorem C01_all_histories_crash_safe : forall ops sched k img,
+  let c := run (firstn k (proto_trace ops sched)) in
+  crash c img ->
+  (forall g, ns_meta img = Some g ->
+      openable c img g /\ g < ngen c /\ (forall r, returned c = Some r -> r <= g)) /\
+  (forall r, returned c = Some r -> exists g, ns_meta img = Some g).
+Proof. exact proto_crash_safe. Qed.
+
+(* protocol variants that are NOT safe (witnesses): no sync after the replace (the pre-fix save_metas), GC forgetting
+   the committed generation, no sync before the replace, pre-sync only when the meta has a new segment id *)
+Theorem C01_protocol_no_post_sync_refuted :
+  first_bad (proto_trace_cfg cfg_no_post_sync tiny_ops tiny_sched) = Some 9.
+Proof. exact (proj1 proto_no_post_sync_refuted). Qed.
+Theorem C01_protocol_gc_deletes_current_generation_refuted :
+  first_bad (proto_trace_cfg cfg_gc_forgets_committed tiny_ops tiny_sched) = Some 11.
+Proof. exact (proj1 proto_gc_deletes_current_generation_refuted). Qed.
+Theorem C01_protocol_no_pre_sync_refuted :
+  first_bad (proto_trace_cfg cfg_no_pre_sync tiny_ops tiny_sched) = Some 7.
+Proof. exact (proj1 proto_no_pre_sync_refuted). Qed.
+Theorem C01_protocol_pre_sync_only_for_new_segments_refuted :
+  first_bad (proto_trace_cfg cfg_pre_sync_if_new_segments (tiny_ops ++ [Stamp 1; Commit [0] []]) tiny_sched) = Some 13.
+Proof. exact (proj1 proto_pre_sync_only_for_new_segments_refuted). Qed.
+Theorem C01_all_histories_example :
+  count is_ret (proto_trace ex_ops ex_sched) = 3%nat /\ count is_delete (proto_trace ex_ops ex_sched) = 36%nat.
+Proof. exact (conj (proj1 ex_shape) (proj1 (proj2 (proj2 ex_shape)))). Qed.
+
+Print Assumptions C01_all_histories.
+Print Assumptions C01_all_histories_crash_safe.
